@@ -215,6 +215,7 @@ class Program:
         self._undo_level_moves(by_rel)
         self._undo_factory_params(by_rel)
         self._undo_setter_helpers(by_rel)
+        self._undo_returned_penalty(by_rel)
         self._undo_param_renames(by_rel)
         if not self.renamed:
             return
@@ -355,6 +356,37 @@ class Program:
                         continue
                     hits = [f for f in m.tree.body if isinstance(f, ast.FunctionDef) and f.name == name
                             and not f.decorator_list and len(f.args.args) == len(ref)]
+                    if not hits and ref[:1] == ['self']:
+                        # moved out of the class AND renamed: the one new private module-level function of that arity whose every
+                        # call passes the `self` of a method of this class as first argument
+                        known = {k2 for t2 in self.PRIVATE_HELPERS.values() for k2 in t2}
+                        cands = []
+                        for f in m.tree.body:
+                            if not (isinstance(f, ast.FunctionDef) and f.name.startswith('_') and not f.name.startswith('__')
+                                    and f.name not in known and not f.decorator_list and len(f.args.args) == len(ref)
+                                    and not f.args.vararg and not f.args.kwarg):
+                                continue
+                            calls = [c for c in ast.walk(m.tree) if isinstance(c, ast.Call) and isinstance(c.func, ast.Name) and c.func.id == f.name]
+                            ok_ = bool(calls)
+                            for c in calls:
+                                p_ = getattr(c, '_parent', None)
+                                while p_ is not None and not isinstance(p_, ast.FunctionDef):
+                                    p_ = getattr(p_, '_parent', None)
+                                in_cls = p_ is not None and getattr(p_, '_parent', None) is cl[0]
+                                if not (in_cls and c.args and isinstance(c.args[0], ast.Name) and p_.args.args and c.args[0].id == p_.args.args[0].arg):
+                                    ok_ = False
+                            if ok_:
+                                cands.append(f)
+                        if len(cands) == 1:
+                            old_name = cands[0].name
+                            for mod in self.modules.values():
+                                for n in ast.walk(mod.tree):
+                                    if isinstance(n, ast.Name) and n.id == old_name:
+                                        n.id = name
+                                    elif isinstance(n, ast.alias) and n.name == old_name:
+                                        n.name = name
+                            cands[0].name = name
+                            hits = cands
                     if len(hits) != 1 or ref[:1] != ['self']:
                         continue
                     f = hits[0]
@@ -431,6 +463,101 @@ class Program:
                 for c_ in ast.iter_child_nodes(n_):
                     c_._parent = n_
         return True
+
+    def _undo_returned_penalty(self, by_rel):
+        """A module-level helper of the reference tree that merged a penalty into the model it was handed (`pcbo += E;
+        return True` / `return False`) may be rewritten to return the penalty (`return E` / `return None`) and leave the merge to
+        its caller (`v = h(..); if v is not None: self += v`).  The model reads the second form as the first."""
+        for (rel, cname), table in self.PRIVATE_HELPERS.items():
+            m = by_rel.get(rel)
+            if m is None or cname is not None:
+                continue
+            for fn in [n for n in m.tree.body if isinstance(n, ast.FunctionDef)]:
+                ref = table.get(self.renamed.get(fn.name, fn.name))
+                if ref is None or not ref or ref[0] != 'pcbo':
+                    continue
+                a = fn.args
+                cur = [x.arg for x in a.args]
+                if a.vararg or a.kwarg or a.kwonlyargs or len(cur) != len(ref) - 1 or 'pcbo' in cur:
+                    continue
+                own = list(self._walk_own(fn))
+                rets = [n for n in own if isinstance(n, ast.Return)]
+                vals = [r for r in rets if r.value is not None and not (isinstance(r.value, ast.Constant) and r.value.value is None)]
+                if not vals or any(isinstance(r.value, ast.Constant) for r in vals):
+                    continue
+                # call sites: v = h(args) ; if v is not None / if v: X += v ...
+                sites = []
+                ok = True
+                for mm in self.modules.values():
+                    for owner in ast.walk(mm.tree):
+                        for field in ('body', 'orelse', 'finalbody'):
+                            lst = getattr(owner, field, None)
+                            if not isinstance(lst, list):
+                                continue
+                            for k, st in enumerate(lst):
+                                if not isinstance(st, ast.stmt):
+                                    continue
+                                for c in self._stmt_own_calls(st):
+                                    if isinstance(c.func, ast.Name) and c.func.id == fn.name:
+                                        nxt = lst[k + 1] if k + 1 < len(lst) else None
+                                        good = isinstance(st, ast.Assign) and st.value is c and len(st.targets) == 1 and isinstance(st.targets[0], ast.Name) \
+                                            and isinstance(nxt, ast.If) and nxt.body and isinstance(nxt.body[0], ast.AugAssign) \
+                                            and isinstance(nxt.body[0].op, ast.Add) and isinstance(nxt.body[0].value, ast.Name) \
+                                            and nxt.body[0].value.id == st.targets[0].id and isinstance(nxt.body[0].target, ast.Name)
+                                        if good:
+                                            v = st.targets[0].id
+                                            t = nxt.test
+                                            tests_ok = (isinstance(t, ast.Name) and t.id == v) or (
+                                                isinstance(t, ast.Compare) and len(t.ops) == 1 and isinstance(t.ops[0], ast.IsNot)
+                                                and isinstance(t.left, ast.Name) and t.left.id == v and isinstance(t.comparators[0], ast.Constant)
+                                                and t.comparators[0].value is None)
+                                            good = tests_ok
+                                        if good:
+                                            sites.append((st, nxt, c))
+                                        else:
+                                            ok = False
+                if not ok or not sites:
+                    continue
+                a.args.insert(0, ast.arg(arg='pcbo'))
+                for r in rets:
+                    if r in vals:
+                        merge = ast.AugAssign(target=ast.Name(id='pcbo', ctx=ast.Store()), op=ast.Add(), value=r.value)
+                        ast.copy_location(merge, r)
+                        ast.fix_missing_locations(merge)
+                        r.value = ast.copy_location(ast.Constant(value=True), r)
+                        r._merge_before = merge
+                    else:
+                        r.value = ast.copy_location(ast.Constant(value=False), r)
+
+                def splice(node):
+                    for field in ('body', 'orelse', 'finalbody'):
+                        lst = getattr(node, field, None)
+                        if isinstance(lst, list):
+                            out = []
+                            for st in lst:
+                                if isinstance(st, ast.stmt):
+                                    splice(st)
+                                    if isinstance(st, ast.Return) and getattr(st, '_merge_before', None) is not None:
+                                        out.append(st._merge_before)
+                                out.append(st)
+                            setattr(node, field, out)
+                    for h in getattr(node, 'handlers', []) or []:
+                        splice(h)
+                splice(fn)
+                if not isinstance(fn.body[-1], ast.Return):
+                    r = ast.Return(value=ast.Constant(value=False))
+                    ast.copy_location(r, fn.body[-1])
+                    ast.fix_missing_locations(r)
+                    fn.body.append(r)
+                for st, nxt, c in sites:
+                    recv = nxt.body[0].target.id
+                    c.args.insert(0, ast.copy_location(ast.Name(id=recv, ctx=ast.Load()), c))
+                    nxt.test = ast.copy_location(ast.Name(id=st.targets[0].id, ctx=ast.Load()), nxt.test)
+                    nxt.body = nxt.body[1:] or [ast.Pass()]
+                for mm in self.modules.values():
+                    for n_ in ast.walk(mm.tree):
+                        for c_ in ast.iter_child_nodes(n_):
+                            c_._parent = n_
 
     def _undo_setter_helpers(self, by_rel):
         """A module-level private helper of the reference tree that returned a value which every caller stored into a field of
